@@ -329,10 +329,17 @@ def _bystander_failures(bystanders):
     return f[:2]
 
 
+def _stored(t):
+    """the two id -> position dictionaries the table stores, as [[id, position], ...] by position"""
+    def one(d):
+        return sorted(([str(k), int(v)] for k, v in d.items()), key=lambda kv: (kv[1], kv[0]))
+    return [one(t._obs_index), one(t._sample_index)]
+
+
 def _run(c):
     t = T.build(c['start'])
     aux = [T.build(s) for s in c['aux']]
-    out = [['start', T.norm_snap(T.snapshot(t)), coherence_failures(t)]]
+    out = [['start', T.norm_snap(T.snapshot(t)), coherence_failures(t), _stored(t)]]
     recs = []
     bystanders = [('auxiliary table %d' % n, a, canon(T.norm_snap(T.snapshot(a)))) for n, a in enumerate(aux)]
     for step, op in enumerate(c['ops']):
@@ -351,7 +358,8 @@ def _run(c):
         except Exception as e:
             rec.setdefault('op', [99])
             after = T.norm_snap(T.snapshot(t))
-            entry = ['err', T.err_code(e), after, coherence_failures(t) + _bystander_failures(bystanders), canon(after) == canon(before)]
+            entry = ['err', T.err_code(e), after, coherence_failures(t) + _bystander_failures(bystanders), canon(after) == canon(before),
+                     _stored(t)]
             rec['after'] = after
             rec['err'] = True
             rec['code'] = T.err_code(e)
@@ -367,7 +375,7 @@ def _run(c):
         rec['after'] = after
         rec['err'] = False
         recs.append(rec)
-        out.append(['ok', after, coherence_failures(t) + _bystander_failures(bystanders)])
+        out.append(['ok', after, coherence_failures(t) + _bystander_failures(bystanders), _stored(t)])
     _STASH[jhash(c)] = recs
     return out
 
@@ -442,14 +450,17 @@ def decode(tree, c):
     recs = _STASH.get(jhash(c), [])
     cd = BitCoder(_universe(c, recs), _values(c, recs))
     out = []
+    def ix(pairs):
+        return sorted(([cd.unid(k), p] for k, p in pairs), key=lambda kv: (kv[1], kv[0]))
     for n, e in enumerate(tree):
         snap = T.norm_snap(cd.untable(e[1]))
+        stored = [ix(e[2]), ix(e[3])]       # Model/Indexed.v: the stored dictionaries of the model state
         if n == 0:
-            out.append(['start', snap, []])
+            out.append(['start', snap, [], stored])
         elif e[0] == 0:
-            out.append(['ok', snap, []])
+            out.append(['ok', snap, [], stored])
         else:
-            out.append(['err', e[0], snap, [], True])
+            out.append(['err', e[0], snap, [], True, stored])
     return out
 
 
@@ -520,12 +531,46 @@ def gen_op(rng):
     return ['align_to', rng.choice(['sample', 'observation', 'both', 'detect']), rng.getrandbits(6), rng.random() < 0.2]
 
 
+def gen_idiom(rng):
+    """a non-in-place operation followed by an IN-PLACE operation on its result: whatever the result still
+    shares with the receiver (a lookup dictionary handed over without a copy, metadata entries, the matrix)
+    shows in the receiver, which stays under observation as a bystander"""
+    ax = rng.choice(['observation', 'sample'])
+    other = 'sample' if ax == 'observation' else 'observation'
+    first = rng.choice([
+        ['filter_ids', ax, rng.getrandbits(4) | 1, rng.random() < 0.3, False, False],
+        ['filter_pred', ax, rng.choice(sorted(PREDS)), rng.random() < 0.3, False],
+        ['remove_empty', rng.choice([ax, 'whole']), False],
+        ['head', rng.randint(1, 4), rng.randint(1, 4)],
+        ['partition', ax, rng.choice(sorted(LABELS)), rng.randint(0, 3)],
+        ['copy'], ['transpose'], ['sort', ax],
+        ['sort_order', ax, rng.getrandbits(8), 'perm'],
+        ['update_ids', ax, rng.choice(['suffix', 'swap']), False, False],
+    ])
+    second = rng.choice([
+        ['update_ids', other, rng.choice(['suffix', 'swap', 'short']), False, True],
+        ['update_ids', other, rng.choice(['suffix', 'swap', 'short']), False, True],
+        ['update_ids', ax, rng.choice(['suffix', 'swap']), False, True],
+        ['filter_ids', other, rng.getrandbits(4) | 1, False, True, False],
+        ['filter_ids', ax, rng.getrandbits(4) | 1, False, True, False],
+        ['add_metadata', rng.choice([ax, other]), rng.getrandbits(4), rng.choice(['g', 'k', 'new']), False],
+        ['del_metadata', rng.choice([ax, other, 'whole']), rng.choice([None, ['g'], ['k', 'new']])],
+        ['transform', rng.choice([ax, other]), rng.choice(sorted(TRANSFORMS)), True],
+        ['remove_empty', rng.choice([ax, other, 'whole']), True],
+    ])
+    return [first, second]
+
+
 def gen_case(rng, depth):
     start = T.rand_spec(rng, max_r=4, max_c=4, values=rng.choice(['counts', 'small', 'signed', 'dyadic']),
                         md=rng.choice(['none', 'group', 'group', 'text', 'obs', 'samp', 'partial']), alphabet=rng.choice(['short', 'short', 'punct', 'latin1']))
     aux = [T.rand_spec(rng, max_r=3, max_c=3, values='counts', md=rng.choice(['none', 'group']), alphabet='short',
                        opfx=rng.choice(['o', 'p']), spfx=rng.choice(['s', 'q'])) for _ in range(2)]
-    return {'start': start, 'aux': aux, 'ops': [gen_op(rng) for _ in range(rng.randint(1, depth))]}
+    ops = [gen_op(rng) for _ in range(rng.randint(1, depth))]
+    if rng.random() < 0.4:
+        at = rng.randint(0, len(ops))
+        ops[at:at] = gen_idiom(rng)
+    return {'start': start, 'aux': aux, 'ops': ops}
 
 
 def gen(rng, tier):
